@@ -49,6 +49,8 @@
  *   Every line: lseek / pread / pwrite / fstat / ftruncate / fsync / fdatasync / dup / dup2 / fcntl / readv /
  *   writev / mmap / fdopen / posix_fadvise of json_util.c are redirected to recording stubs (lseek, pread, fstat,
  *   ftruncate, fsync behave as on a regular file); any such call appends " OTHER:<name>+<name>...".
+ *   Every open() request is compared with the documented one (reading: O_RDONLY and nothing else; writing:
+ *   O_WRONLY | O_TRUNC | O_CREAT, mode 0644); the first that differs appends " FLAGS:<hex flags>/<octal mode>".
  *   S <tree> <flags>                       serialization only (used by the generator)
  *      -> S <ser>
  * msg: json_util_get_last_err() != NULL after the call (the message is cleared before it);
@@ -124,7 +126,7 @@ static int errno_of(const char *name, size_t n)
 	static const struct { const char *n; int e; } tab[] = {
 		{"EIO", EIO}, {"EINTR", EINTR}, {"EAGAIN", EAGAIN}, {"EBADF", EBADF}, {"ENOSPC", ENOSPC},
 		{"EPIPE", EPIPE}, {"EACCES", EACCES}, {"EMFILE", EMFILE}, {"ENOENT", ENOENT}, {"EISDIR", EISDIR},
-		{"EFBIG", EFBIG}, {"EDQUOT", EDQUOT}, {"EINVAL", EINVAL}, {"ENOMEM", ENOMEM},
+		{"EFBIG", EFBIG}, {"EDQUOT", EDQUOT}, {"EINVAL", EINVAL}, {"ENOMEM", ENOMEM}, {"EWOULDBLOCK", EWOULDBLOCK},
 		{"ENOTDIR", ENOTDIR}, {"ENAMETOOLONG", ENAMETOOLONG}, {"EROFS", EROFS}, {"ELOOP", ELOOP}, {"0", 0}};
 	size_t i;
 	for (i = 0; i < sizeof(tab) / sizeof(tab[0]); i++)
@@ -247,8 +249,18 @@ static ssize_t vf_write(int fd, const void *buf, size_t count)
 	return (ssize_t)n;
 }
 
+/* the open() requests json_util.c is documented to make: reading O_RDONLY and nothing else;
+ * writing O_WRONLY | O_TRUNC | O_CREAT with mode 0644.  The first request that differs (any extra
+ * bit: O_NONBLOCK, O_APPEND, O_CLOEXEC ...; a missing one; another mode) is kept for the line. */
+static int bad_open_seen, bad_open_flags; static unsigned bad_open_mode;
 static int vf_open(const char *path, int flags, ...)
 {
+	unsigned mode = 0;
+	int want = (flags & O_ACCMODE) == O_RDONLY ? O_RDONLY : (O_WRONLY | O_TRUNC | O_CREAT);
+	if (flags & O_CREAT) { va_list ap; va_start(ap, flags); mode = va_arg(ap, unsigned); va_end(ap); }
+	if (!bad_open_seen && (flags != want || ((flags & O_CREAT) && mode != 0644))) {
+		bad_open_seen = 1; bad_open_flags = flags; bad_open_mode = mode;
+	}
 	vf.opens++;
 	vf.oflags = flags; vf.oflags_seen = 1;
 	if (vf.fsmode) {
@@ -285,6 +297,7 @@ enum { X_LSEEK, X_PREAD, X_PWRITE, X_FSTAT, X_FTRUNCATE, X_FSYNC, X_FDATASYNC, X
 static void put_other(unsigned mask)
 {
 	int i, first = 1;
+	if (bad_open_seen) { printf(" FLAGS:%x/%o", (unsigned)bad_open_flags, bad_open_mode); bad_open_seen = 0; }
 	if (!mask) return;
 	printf(" OTHER:");
 	for (i = 0; i < X_N; i++) if (mask & (1u << i)) { printf("%s%s", first ? "" : "+", other_names[i]); first = 0; }
@@ -772,6 +785,7 @@ void run_case(char *rest)
 	xa_reset();
 	live0 = xa_live;
 	the_fd = 77;
+	bad_open_seen = 0;
 	if (op && op[0] == '@') { the_fd = atoi(op + 1); op = strtok_r(NULL, " ", &save); }
 	if (!op) { printf("BADLINE"); return; }
 	if (strcmp(op, "W") == 0) {
